@@ -27,23 +27,27 @@ struct VS {
 	std::vector<int> backlog; // listening: accepted-side endpoints waiting for accept()
 	bool scripted; std::vector<std::string> script; size_t next; int out_slot;
 	int idle;                 // consecutive non-consuming operations at end of stream
+	bool accepted;            // this descriptor was returned by accept()
 };
 static VS S[N];
 static bool on = false;
 static int cap = 1 << 20, rmax = 0, smax = 0, bad_ops = 0;
 static std::string outs[N]; static int nouts = 0;
 static int spin_limit = 0; static void (*spin_handler)(const char*) = 0;
+static long stats[ST_NSTATS]; static int accept_calls = 0, accept_fail_at = 0;
 
 static bool isv(int fd) { return fd >= BASE && fd < BASE + N; }
 static VS* get(int fd) { if (!isv(fd)) return 0; VS* s = &S[fd - BASE]; if (s->state == FREE) { bad_ops++; return 0; } return s; }
-static void clear(VS& s) { s.state = FREE; s.family = 0; s.port = 0; s.path[0] = 0; s.peer = -1; s.in.clear(); s.eof = false; s.peer_gone = false; s.backlog.clear(); s.scripted = false; s.script.clear(); s.next = 0; s.out_slot = -1; s.idle = 0; }
+static void clear(VS& s) { s.state = FREE; s.family = 0; s.port = 0; s.path[0] = 0; s.peer = -1; s.in.clear(); s.eof = false; s.peer_gone = false; s.backlog.clear(); s.scripted = false; s.script.clear(); s.next = 0; s.out_slot = -1; s.idle = 0; s.accepted = false; }
 static int alloc() { for (int i = 0; i < N; i++) if (S[i].state == FREE) { clear(S[i]); S[i].state = FRESH; return i; } return -1; }
 
 void enable(bool b) { on = b; }
-void reset(int c) { for (int i = 0; i < N; i++) clear(S[i]); cap = c; bad_ops = 0; nouts = 0; for (int i = 0; i < N; i++) outs[i].clear(); }
+void reset(int c) { for (int i = 0; i < N; i++) clear(S[i]); cap = c; bad_ops = 0; nouts = 0; for (int i = 0; i < N; i++) outs[i].clear(); memset(stats, 0, sizeof stats); accept_calls = 0; accept_fail_at = 0; }
 void set_limits(int r, int s) { rmax = r; smax = s; }
 int open_fds() { int n = 0; for (int i = 0; i < N; i++) if (S[i].state != FREE) n++; return n; }
 int misuse() { return bad_ops; }
+long stat(int w) { if (w == ST_ACCEPTED_OPEN) { long n = 0; for (int i = 0; i < N; i++) if (S[i].state != FREE && S[i].accepted) n++; return n; } return w >= 0 && w < ST_NSTATS ? stats[w] : 0; }
+void fail_accept(int kth) { accept_fail_at = kth; }
 void set_spin_limit(int polls, void (*h)(const char*)) { spin_limit = polls; spin_handler = h; }
 int scripted(const std::vector<std::string>& chunks) {
 	int i = alloc(); if (i < 0) return -1;
@@ -148,6 +152,11 @@ extern "C" int accept(int fd, struct sockaddr* a, socklen_t* len) {
 	if (vsched::is_managed()) vsched::block_until(pred_backlog, s, -1, 21, true);
 	if (s->state != LISTENING || s->backlog.empty()) { errno = EAGAIN; return -1; }
 	int j = s->backlog.front(); s->backlog.erase(s->backlog.begin());
+	if (accept_fail_at && ++accept_calls == accept_fail_at) { // deviation: the connection was aborted before it could be handed over
+		VS& b = S[j]; if (b.peer >= 0 && S[b.peer].state != FREE) { S[b.peer].eof = true; S[b.peer].peer_gone = true; S[b.peer].peer = -1; } clear(b);
+		stats[ST_ACCEPT_FAILURES]++; errno = ECONNABORTED; return -1;
+	}
+	S[j].accepted = true; stats[ST_ACCEPTS]++;
 	return BASE + j;
 }
 static ssize_t vread(int fd, void* buf, size_t n) {
@@ -162,12 +171,12 @@ static ssize_t vread(int fd, void* buf, size_t n) {
 	progress(*s);
 	return (ssize_t)k;
 }
-static ssize_t vsend(int fd, const void* buf, size_t n) {
+static ssize_t vsend(int fd, const void* buf, size_t n, int flags) {
 	VS* s = get(fd); if (!s) { errno = EBADF; return -1; }
 	if (s->scripted) { point(); size_t k = smax && n > (size_t)smax ? smax : n; outs[s->out_slot].append((const char*)buf, k); return (ssize_t)k; }
 	if (vsched::is_managed()) vsched::block_until(pred_space, s, -1, 23, true);
 	s = get(fd); if (!s) { errno = EBADF; return -1; }
-	if (s->peer < 0 || s->peer_gone) { errno = EPIPE; return -1; }
+	if (s->peer < 0 || s->peer_gone) { stats[ST_SENDS_TO_CLOSED_PEER]++; if (!(flags & MSG_NOSIGNAL)) stats[ST_SIGPIPE_SENDS]++; errno = EPIPE; return -1; }
 	VS& p = S[s->peer];
 	size_t room = cap > (int)p.in.size() ? cap - p.in.size() : 0;
 	size_t k = n < room ? n : room;
@@ -178,8 +187,8 @@ static ssize_t vsend(int fd, const void* buf, size_t n) {
 }
 extern "C" ssize_t read(int fd, void* buf, size_t n) { REAL(ssize_t, read, int, void*, size_t); return isv(fd) ? vread(fd, buf, n) : real(fd, buf, n); }
 extern "C" ssize_t recv(int fd, void* buf, size_t n, int fl) { REAL(ssize_t, recv, int, void*, size_t, int); return isv(fd) ? vread(fd, buf, n) : real(fd, buf, n, fl); }
-extern "C" ssize_t write(int fd, const void* buf, size_t n) { REAL(ssize_t, write, int, const void*, size_t); return isv(fd) ? vsend(fd, buf, n) : real(fd, buf, n); }
-extern "C" ssize_t send(int fd, const void* buf, size_t n, int fl) { REAL(ssize_t, send, int, const void*, size_t, int); return isv(fd) ? vsend(fd, buf, n) : real(fd, buf, n, fl); }
+extern "C" ssize_t write(int fd, const void* buf, size_t n) { REAL(ssize_t, write, int, const void*, size_t); return isv(fd) ? vsend(fd, buf, n, 0) : real(fd, buf, n); }
+extern "C" ssize_t send(int fd, const void* buf, size_t n, int fl) { REAL(ssize_t, send, int, const void*, size_t, int); return isv(fd) ? vsend(fd, buf, n, fl) : real(fd, buf, n, fl); }
 extern "C" int ioctl(int fd, unsigned long req, ...) {
 	va_list ap; va_start(ap, req); void* arg = va_arg(ap, void*); va_end(ap);
 	REAL(int, ioctl, int, unsigned long, ...);
@@ -203,6 +212,7 @@ extern "C" int select(int nfds, fd_set* r, fd_set* w, fd_set* e, struct timeval*
 	for (int fd = 0; fd < nfds && fd < FD_SETSIZE; fd++) FD_CLR(fd, r); // like the kernel: descriptors at or above nfds are neither examined nor cleared
 	for (int fd = BASE; fd < nfds && fd < BASE + N; fd++) if (FD_ISSET(fd, &out)) FD_SET(fd, r);
 	if (w) FD_ZERO(w); if (e) FD_ZERO(e);
+	if (cnt == 0) stats[ST_SELECT_TIMEOUTS]++; else if (cnt >= 2) stats[ST_SELECT_MULTI]++;
 	return cnt;
 }
 extern "C" int setsockopt(int fd, int l, int o, const void* v, socklen_t n) { REAL(int, setsockopt, int, int, int, const void*, socklen_t); if (!isv(fd)) return real(fd, l, o, v, n); return get(fd) ? 0 : (errno = EBADF, -1); }
